@@ -5,7 +5,7 @@ import math
 import random
 import sys
 
-from common import main
+from common import main, budget
 import build
 
 TOL = 1e-6
@@ -114,6 +114,15 @@ def check(case):
     want_p, gap = my_plane(est, gt)
     if gap > 1e-3 and abs(s["plane"] - want_p) > 1e-6:
         return f"plane distance {s['plane']}, RMS corner distance of the ground truth's nearest side is {want_p}"
+    # the same two boxes expressed in the map frame with the ego pose supplied: "nearest to the ego" is still judged from the ego
+    ego = case.get("ego")
+    if ego is not None and gap > 1e-3:
+        from perception_eval.evaluation.matching.object_matching import PlaneDistanceMatching, CenterDistanceMatching
+        to_map = lambda d: dict(moved(d, ego["yaw"], ego["x"], ego["y"]), frame="map")
+        tf = build.transforms(ego)
+        pm = PlaneDistanceMatching(build.obj3d(to_map(est)), build.obj3d(to_map(gt)), transforms=tf).value
+        if abs(pm - want_p) > 1e-6:
+            return f"map-frame rendering (ego at {ego}): plane distance {pm}, RMS corner distance of the ground truth's side nearest to the ego is {want_p}"
     same = scores(gt, gt)
     if abs(same["iou2"] - 1) > TOL or abs(same["iou3"] - 1) > TOL or abs(same["center"]) > TOL or abs(same["plane"]) > TOL:
         return f"identical boxes score {same}"
@@ -168,12 +177,13 @@ def gen(rng):
     if rng.random() < 0.1:      # touching along x
         est = dict(gt, yaw=0.0, x=gt["x"] + gt["size"][1])
         gt = dict(gt, yaw=0.0)
-    return dict(est=est, gt=gt, motion=(rng.uniform(-3.1, 3.1), rng.uniform(-20, 20), rng.uniform(-20, 20)))
+    return dict(est=est, gt=gt, motion=(rng.uniform(-3.1, 3.1), rng.uniform(-20, 20), rng.uniform(-20, 20)),
+                ego=dict(x=round(rng.uniform(-60, 60), 2), y=round(rng.uniform(-60, 60), 2), yaw=round(rng.uniform(-3.1, 3.1), 3)))
 
 
 def search(item, seed):
     rng = random.Random((seed or 0) * 31 + 6)
-    for _ in range(400):
+    for _ in range(budget(400)):
         case = gen(rng)
         try:
             why = check(case)
@@ -181,7 +191,7 @@ def search(item, seed):
             why = f"raised {type(ex).__name__}: {ex}"
         if why:
             return dict(function="matching scores (3-D boxes)", input=case, observed=why)
-    for _ in range(300):
+    for _ in range(budget(300)):
         a = [rng.randint(0, 50), rng.randint(0, 50), rng.randint(1, 40), rng.randint(1, 40)]
         b = [rng.randint(0, 50), rng.randint(0, 50), rng.randint(1, 40), rng.randint(1, 40)]
         why = check_roi(dict(a=a, b=b))
